@@ -658,12 +658,18 @@ def run_case(case, tape, ctx):
                     m.in_clear.pop(me, None)
                 p = m.pending.get(cname, {})
                 q = c._scheduler.queue if cname == 'app' else c._task_queue
-                if p or not q._orig_empty():
+                # (what the library itself keeps on a clock - received
+                # messages waiting for dispatch - is not a scheduled task)
+                mine = {id(t) for t in m.taskid}
+                left = [t for t in p if id(t) in mine]
+                inq = [e for e in q if id(e[1]) in mine]
+                if left or inq:
                     viol.add('C08-6', f'{cname[0]}-clear-left-pending',
-                             f'{cname}.clear() left {len(p)} model-pending '
-                             f'task(s), queue empty={q._orig_empty()}')
-                    m.cancelled.setdefault(cname, set()).update(p.keys())
-                    p.clear()
+                             f'{cname}.clear() left {len(left)} model-pending '
+                             f'task(s), {len(inq)} in the queue')
+                    m.cancelled.setdefault(cname, set()).update(left)
+                    for t in left:
+                        p.pop(t, None)
                 m.after_clear(cname)
             return
         if kind == 'cmdperiod':
@@ -680,13 +686,17 @@ def run_case(case, tape, ctx):
                     c = clocks[cn]
                     p = m.pending.get(cn, {})
                     q = c._scheduler.queue if cn == 'app' else c._task_queue
-                    if p or not q._orig_empty():
+                    mine = {id(t) for t in m.taskid}
+                    left = [t for t in p if id(t) in mine]
+                    inq = [e for e in q if id(e[1]) in mine]
+                    if left or inq:
                         viol.add('C08-6', f'{cn[0]}-cmdperiod-left-pending',
-                                 f'CmdPeriod.run() left {len(p)} '
-                                 f'model-pending task(s) on {cn}, queue '
-                                 f'empty={q._orig_empty()}')
-                        m.cancelled.setdefault(cn, set()).update(p.keys())
-                        p.clear()
+                                 f'CmdPeriod.run() left {len(left)} '
+                                 f'model-pending task(s) on {cn}, '
+                                 f'{len(inq)} in the queue')
+                        m.cancelled.setdefault(cn, set()).update(left)
+                        for t in left:
+                            p.pop(t, None)
                     m.after_clear(cn)
                     if cn.startswith('t'):
                         m.stopping.add(cn)
